@@ -126,6 +126,11 @@ func PropC17Race(c *vs.Case, f Factory, kind string) error {
 			p := vs.CopyMap(scn.Parent)
 			name := fmt.Sprintf("q%d", i)
 			p["metadata"].(map[string]any)["name"] = name
+			if i%2 == 0 {
+				// parents in two namespaces: whatever a controller shares between its workers must not
+				// carry the namespace of the parent another worker is busy with
+				p["metadata"].(map[string]any)["namespace"] = "ns2"
+			}
 			spec := p["spec"].(map[string]any)
 			spec["selector"] = map[string]any{"matchLabels": map[string]any{"app": name}}
 			spec["template"].(map[string]any)["metadata"] = map[string]any{"labels": map[string]any{"app": name}}
@@ -154,7 +159,7 @@ func PropC17Race(c *vs.Case, f Factory, kind string) error {
 			env.W.SyncAll()
 			if r == 1 {
 				for _, p := range parents {
-					env.W.Sim.ExtUpdate("things", "ns1", metaStr(p, "name"), func(o map[string]any) {
+					env.W.Sim.ExtUpdate("things", metaStr(p, "namespace"), metaStr(p, "name"), func(o map[string]any) {
 						o["spec"].(map[string]any)["template"].(map[string]any)["v"] = "v2"
 					})
 				}
@@ -163,7 +168,7 @@ func PropC17Race(c *vs.Case, f Factory, kind string) error {
 			if r == 2 {
 				// scale every parent down: concurrent deletes of children that are no longer desired
 				for _, p := range parents {
-					env.W.Sim.ExtUpdate("things", "ns1", metaStr(p, "name"), func(o map[string]any) {
+					env.W.Sim.ExtUpdate("things", metaStr(p, "namespace"), metaStr(p, "name"), func(o map[string]any) {
 						o["spec"].(map[string]any)["replicas"] = int64(1)
 					})
 				}
@@ -225,9 +230,13 @@ func PropC17Race(c *vs.Case, f Factory, kind string) error {
 						gm, _ := g.(map[string]any)
 						n += len(gm)
 					}
+					reqParent, _ := h.Request["parent"].(map[string]any)
+					if reqParent == nil {
+						reqParent, _ = h.Request["object"].(map[string]any)
+					}
 					want := 0
 					for _, o := range append(env.W.Sim.ListAll("gadgets"), env.W.Sim.ListAll("cwidgets")...) {
-						if relatedSelected(env, parents[0], env.Scn.Prog.Related, o) {
+						if reqParent != nil && relatedSelected(env, reqParent, env.Scn.Prog.Related, o) {
 							want++
 						}
 					}
